@@ -46,13 +46,20 @@ def runLine (line : String) : String :=
           some (chunksOf sizes (script.length + 1) 0 script)
         | _ => none
       let r := run shared script data
-      let tr := "|".intercalate ((traceOf r).map showOut)
-      let obs := match r.2.1 with
+      let showObs (out : List Out) (status : Nat) (o : Outcome) (echo : List UInt8) : String :=
+        let tr := "|".intercalate (out.reverse.map showOut)
+        match o with
         | .outOfFuel => s!"FUEL trace={tr}"
-        | o => s!"trace={tr} status={r.1.status} err={if o == .syntaxError then 1 else 0} echo={encBytes r.1.echo}"
+        | o => s!"trace={tr} status={status} err={if o == .syntaxError then 1 else 0} echo={encBytes echo}"
+      let obs := showObs r.1.out r.1.status r.2.1 r.1.echo
       let prefixes := (List.range units.length).filterMap fun k =>
         if k == 0 then none else some (units.take k).flatten
-      obs ++ "\t" ++ check shared script data prefixes chunks r
+      -- Spec column: a violated clause of the Spec on the model's own run, else the prediction of
+      -- the line-by-line reference reader
+      let verdict := check shared script data prefixes chunks r
+      let sp := specRun shared script data
+      obs ++ "\t" ++ (if verdict != "ok" then verdict
+                      else "=" ++ showObs sp.1.out sp.1.status sp.2 sp.1.echo)
     | _, _ => "bad-case\t-"
   | _ => "bad-case\t-"
 
